@@ -127,6 +127,12 @@ func setupRepos(n *NetSim, spec *NetSpec) []string {
 		}
 		resolved = append(resolved, abs)
 		n.Artefacts["chart:"+r.Chart] = chartArchive(r.Chart)
+		if strings.HasPrefix(r.ChartURL, "//") {
+			// the dependency manager joins such a reference onto the repository path; serve that spelling as well
+			if ru, err := url.Parse(stripUserinfo(r.URL)); err == nil {
+				n.Routes[ru.Scheme+"://"+normAddr(ru.Scheme, ru.Host)+strings.TrimSuffix(ru.Path, "/")+"/"+strings.TrimPrefix(r.ChartURL, "//")] = &Route{Artefact: "chart:" + r.Chart}
+			}
+		}
 		if r.Redirect != "" {
 			n.Routes[routeKey(abs)] = &Route{Redirect: r.Redirect}
 			n.Routes[routeKey(r.Redirect)] = &Route{Artefact: "chart:" + r.Chart}
@@ -354,7 +360,7 @@ func genC19(seed, index uint64, tier string) *Plan {
 		if scheme == "http" {
 			other = "https"
 		}
-		switch g.N(13) {
+		switch g.N(15) {
 		case 0:
 			r.Variant, r.ChartURL = "relative", "charts"+file
 		case 1:
@@ -389,6 +395,10 @@ func genC19(seed, index uint64, tier string) *Plan {
 			r.Variant, r.ChartURL = "abs-own-userinfo", scheme+"://someone:else@cdn.example.org"+file
 		case 12:
 			r.Variant, r.ChartURL = "abs-trailing-dot", scheme+"://"+host+"."+port+path+file
+		case 13:
+			r.Variant, r.ChartURL = "scheme-relative-foreign", "//evil.example.net"+file
+		case 14:
+			r.Variant, r.ChartURL = "scheme-relative-other-port", "//"+host+":9443"+file
 		}
 		if g.Chance(0.25) {
 			switch g.N(4) {
